@@ -4,8 +4,8 @@ Correspondence: slice c10 (convert_integer via TypeSpace::add_type  vs  Integer.
 import json, itertools
 import vlib
 
-PROOF_TARGETS = ["TypifyModel.Proofs.C10", "TypifyModel.Proofs.C10Strings"]
-PROOF_FILES = ["Proofs/C10.lean", "Proofs/C10Strings.lean", "Proofs/Lemmas/IntegerLemmas.lean", "Proofs/Lemmas/F64.lean"]
+PROOF_TARGETS = ["TypifyModel.Proofs.C10", "TypifyModel.Proofs.C10Strings", "TypifyModel.Proofs.C05Convert"]
+PROOF_FILES = ["Proofs/C10.lean", "Proofs/C10Strings.lean", "Proofs/C05Convert.lean", "Proofs/Lemmas/IntegerLemmas.lean", "Proofs/Lemmas/F64.lean"]
 # independent statement of the string-format clause: the documented formats and their types; anything else is a String
 DOCUMENTED = {"uuid": "::uuid::Uuid", "date": "::chrono::naive::NaiveDate", "date-time": "::chrono::DateTime<::chrono::offset::Utc>",
               "ip": "::std::net::IpAddr", "ipv4": "::std::net::Ipv4Addr", "ipv6": "::std::net::Ipv6Addr"}
@@ -181,6 +181,57 @@ def attribute(s, kind, findings):
             return f
     return None
 
+def convert_string_stage(ctx, st):
+    """M0 for the model of convert_string (Model/ConvertString.lean, theorems Proofs/C05Convert.lean): the whole keyword
+    lattice format x minLength x maxLength x pattern, one document per schema (the uses_ flags belong to the type space),
+    real TypeSpace through tvh_ir vs the Lean driver (drv_c10)."""
+    import m2, irutil
+    rows, _ = vlib.string_formats_table()
+    fmts = [None] + [f for f, _, _ in rows if not f.startswith("?")] + ["hostname", "email", "uri", "time", "Uuid", "x"]
+    schemas = []
+    for f in fmts:
+        for mn in (None, 0, 2):
+            for mx in (None, 0, 5):
+                for pat in (None, "^[a-z]+$", "^.*$", "[a-"):
+                    sc = {"type": "string"}
+                    if f is not None: sc["format"] = f
+                    if mn is not None: sc["minLength"] = mn
+                    if mx is not None: sc["maxLength"] = mx
+                    if pat is not None: sc["pattern"] = pat
+                    schemas.append(sc)
+    ans = m2.tvh_ir([{"settings": {}, "calls": [{"root": {"definitions": {"T": sc}}}]} for sc in schemas])
+    real = []
+    for sc, a in zip(schemas, ans):
+        if a.get("aborted"): real.append("abort"); continue
+        if not (a.get("calls") and a["calls"][-1].startswith("ok")):
+            real.append("err " + (a["calls"][-1].split(":", 1)[1] if a.get("calls") and ":" in a["calls"][-1] else "?")); continue
+        es = irutil.entries(a["dump"]); nm = irutil.named(a["dump"])
+        uses = ",".join(sorted(k for k, v in a["dump"]["uses"].items() if v))
+        if "T" not in nm: real.append("no-type"); continue
+        e = nm["T"][1]; inner = es.get(e.get("type_id"), {})
+        c = e.get("constraints")
+        if c and "string" in c:
+            q = c["string"]; o = lambda v: "-" if v is None else str(v)
+            real.append("constrained max=%s min=%s pat=%s uses=%s" % (o(q["max"]), o(q["min"]), "-" if q["pattern"] is None else json.dumps(q["pattern"]), uses))
+        elif inner.get("kind") == "native":
+            real.append("native %s impls=%s uses=%s" % (inner["type_name"], ",".join(i for i in ("Display", "FromStr") if i in inner["impls"]), uses))
+        elif inner.get("kind") == "string" and not c: real.append("plain uses=" + uses)
+        else: real.append("other " + json.dumps(e)[:120])
+    model = vlib.run_side("model", "c10", [json.dumps(sc, sort_keys=True) for sc in schemas], "strmodel") if st["driver_ok"] else None
+    dis = []
+    if model is not None:
+        def norm(x):
+            # the model lists uses in arm order, the dump alphabetically; impls likewise
+            m_ = x.split(" uses=")
+            if len(m_) == 2: x = m_[0] + " uses=" + ",".join(sorted(u for u in m_[1].split(",") if u))
+            if x.startswith("native ") and " impls=" in x:
+                h, rest = x.split(" impls=", 1); im, us = rest.split(" uses=", 1)
+                x = h + " impls=" + ",".join(i for i in ("Display", "FromStr") if i in im.split(",")) + " uses=" + us
+            return x
+        for sc, r_, m_ in zip(schemas, real, model):
+            if norm(r_) != norm(m_): dis.append({"schema": sc, "impl": r_, "model": m_})
+    return {"evaluations": len(schemas), "disagreements": dis, "answers": {k: sum(1 for r_ in real if r_.split(" ")[0] == k) for k in ("plain", "constrained", "native", "err")}}
+
 def run(ctx):
     findings = vlib.load_findings("C10")
     st = vlib.proof_stage(ctx, "C10", PROOF_TARGETS, PROOF_FILES, slices=["c10"])
@@ -231,6 +282,11 @@ def run(ctx):
     ctx.log("string formats: %d evaluations, %d disagreements with the T2 table model, %d oracle failures" % (sf["evaluations"], len(sf["disagreements"]), len(sf["fails"])))
     if sf["disagreements"]:
         broken.append("correspondence T2 (string formats): the table regenerated from convert_string and the real add path disagree on %d schemas" % len(sf["disagreements"]))
+    cs_ = convert_string_stage(ctx, st)
+    ctx.log("convert_string model (M0): %d schemas, %d disagreements, answers %r" % (cs_["evaluations"], len(cs_["disagreements"]), cs_["answers"]))
+    if cs_["disagreements"]:
+        broken.append("correspondence M0 (convert_string): model and implementation disagree on %d string schemas, e.g. %s"
+                      % (len(cs_["disagreements"]), json.dumps(cs_["disagreements"][0])[:300]))
     for fl in sf["fails"][:3]:
         vlib.violation(ctx, {"property": "C10", "kind": "implementation violates the property", "failed_clause": "string format -> documented type / String",
                              "input": fl["schema"], "detail": fl, "broken_obligations": broken})
@@ -266,6 +322,8 @@ def run(ctx):
         "out_of_model_domain": unsupported,
         "answer_distribution": dict(sorted(branches.items(), key=lambda kv: -kv[1])[:20]),
         "tables_regenerated": st["tables_ok"],
+        "convert_string_model": {"evaluations": cs_["evaluations"], "disagreements": cs_["disagreements"][:5], "answers": cs_["answers"],
+                                 "theorems": ["C05C.convert_string_exact", "C05C.convert_string_uses_regress", "C05C.convert_string_format_ignores_validation", "C05C.convert_string_format_drops"]},
         "string_formats": {"evaluations": sf["evaluations"], "selected": sf["selected"], "table_model_disagreements": sf["disagreements"][:5],
                            "oracle_failures": len(sf["fails"]),
                            "theorems": ["C10S.string_formats_documented", "C10S.string_format_unrecognised", "C10S.string_formats_known", "C10S.string_formats_functional", "C10S.string_formats_uses"]},
